@@ -46,7 +46,8 @@ def gen_cases(seed, tier):
     for _ in range(40 if tier == "quick" else 400):
         cases.append({"kind": "cellstate", "how": rng.choice(["pickle", "deepcopy", "pickle_twice"]), "cls": rng.choice(["lineage", "lineage", "volume", "delayvolume"]),
                       "v0": rng.choice([0.5, 1.0, 2.5]), "t0": rng.choice([-3.0, -1.0, 0.0, 0.0, 2.0]), "volume": rng.choice([None, 0.0, 1.25, 3.0]), "time": rng.choice([None, 0.0, 0.0, 0.5, 4.0]),
-                      "state": [float(rng.randint(0, 9)) for _ in range(rng.randint(1, 4))], "divided": rng.choice([-1, 0, 2]), "dead": rng.choice([-1, -1, 1]), "seed": rng.randint(1, 2**31)})
+                      "state": [float(rng.randint(0, 9)) for _ in range(rng.randint(1, 4))], "divided": rng.choice([-1, 0, 2]), "dead": rng.choice([-1, -1, 1]), "seed": rng.randint(1, 2**31),
+                      "advance": rng.randint(0, 5), "adds": [[rng.choice([0.0, 0.5, 1.0, 1.5]), rng.randint(0, 1), float(rng.randint(1, 4))] for _ in range(rng.randint(0, 4))]})
     return cases
 
 def _cellstate_case(case):
@@ -68,6 +69,10 @@ def _cellstate_case(case):
     else:
         from bioscrape.simulator import DelayVolumeCellState, ArrayDelayQueue
         q = ArrayDelayQueue.setup_queue(2, 4, 0.5); q.py_add_reaction(0.7, 1, 2.0)
+        # a queue that has been in use: its read position is not at column 0 and entries are pending behind it in the ring
+        # (seeded change S5_C17: the restored cell state's queue was rebuilt with the read position reset)
+        for _k in range(int(case.get("advance", 0))): q.py_advance_time()
+        for _j, (_t, _r, _a) in enumerate(case.get("adds", [])): q.py_add_reaction(q.py_get_next_queue_time() + _t, _r, _a)
         cs = DelayVolumeCellState(time=case["time"] if case["time"] is not None else 0.0, state=np.array(case["state"]), volume=case["volume"] if case["volume"] is not None else case["v0"], queue=q)
         def qdump(c):
             qq = c.py_get_delay_queue()
@@ -85,6 +90,15 @@ def _cellstate_case(case):
         if a[k] != b[k]: out["problems"].append("cell state: field %s: original %r copy %r (%s)" % (k, a[k], b[k], case["how"]))
     c2.py_set_state(np.array(case["state"]) + 1.0)
     if get(cs)["state"] != a["state"]: out["problems"].append("independence: editing the copied cell state changed the original")
+    if case["cls"] == "delayvolume":
+        # last: what the two queues actually DELIVER when they are used (read and advanced themselves, not through a copy)
+        def drain(c):
+            qq = c.py_get_delay_queue(); o_ = [float(qq.py_get_next_queue_time())]
+            for _ in range(4):
+                a_ = np.zeros(2); qq.py_get_next_reactions(a_); o_ += [float(v) for v in a_]; qq.py_advance_time()
+            return o_
+        da, db = drain(cs), drain(c2)
+        if da != db: out["problems"].append("cell state: the delay queue of the copy delivers %r, the original's %r (%s)" % (db, da, case["how"]))
     return out
 
 def _observe(M, points, V=2.0):
